@@ -15,5 +15,5 @@ else
 fi
 cd /verif
 for prop in "$@"; do
-  VERIF_REPO="$T/repo" VERIF_SCRATCH=1 ./check "$prop" 2>&1 | grep -E "VIOLATION|held|VIOLATED|UNVERIFIABLE|infrastructure|KNOWN" | cut -c1-260 | head -8
+  VERIF_REPO="$T/repo" VERIF_EVIDENCE_DIR="$T/ev" ./check "$prop" 2>&1 | grep -E "VIOLATION|held|VIOLATED|UNVERIFIABLE|infrastructure|KNOWN" | cut -c1-260 | head -8
 done
